@@ -4,7 +4,8 @@
    A table entry that breaks a check makes this file fail to compile; the
    harness then prints the offending entries (the *_bad lists). *)
 From Coq Require Import List.
-From PV Require Import Units.Tables Units.Gen_Tables.
+From PV Require Import Units.Tables.
+From PV Require Import Units.Gen_Tables.
 
 Lemma gen_classes_plain : classes_plain gen_classes = true.
 Proof. vm_compute. reflexivity. Qed.
